@@ -124,3 +124,46 @@ def repo_suite_under_monitors(ctx, kind):
             ctx.viol("maintainers-test-under-monitor:" + kind, f"[{pr['test']}] {pr['msg']}", {"shadow_plugin": pr})
         elif pr["kind"] == "monitor-error":
             ctx.cnt["repo_suite:monitor_errors"] += 1
+
+
+def crossing_slice(ctx, tier, rng, run_one, entries=None, quick_n=800, thorough_n=20000, per=2):
+    """Shared workload: the clock crosses the deadline inside one callback of the backoff phase (gen.crossing_scenarios)."""
+    n = (quick_n if tier == "quick" else thorough_n) // ctx.nshards
+    for sc in gen.crossing_scenarios(rng, n):
+        for e in pick_entries(rng, entries or rig.ENTRIES, per):
+            run_one(sc, e)
+        ctx.cnt["crossing_scenarios:" + sc["crossing"]] += 1
+
+
+def crossing_floors(ctx, floors, n=60):
+    for w_ in ("handler", "before_sleep", "record_failure"):
+        floors["crossing_scenarios:" + w_] = (ctx.cnt["crossing_scenarios:" + w_], n)
+
+
+def reconfig_slice(ctx, tier, rng, run_one, quick_n=500, thorough_n=12000, per=2):
+    """Shared workload: the caller reassigns public attributes of the policy object (deadline, max_attempts, max_unknown_attempts,
+    per_class_max_attempts) between two calls; each call is judged against the configuration in force when it was made."""
+    ents = [e for e in rig.ENTRIES if not e.lstrip("a").startswith("deco")]
+    n = (quick_n if tier == "quick" else thorough_n) // ctx.nshards
+    for k in range(n):
+        sc = gen.rand_scenario(rng, p_special=0.0, p_budget=0.1, p_handler=0.2, p_abort=0.05, ncalls=(2, 3), timing=True)
+        for c in sc["calls"][1:]:
+            st = {}
+            for f in rng.sample(["deadline_s", "max_attempts", "max_unknown", "per_class"], rng.randint(1, 2)):
+                if f == "deadline_s":
+                    st[f] = rng.choice([0.25, 0.5, 1.0, 2.0, 1000.0])
+                elif f == "max_attempts":
+                    st[f] = rng.randint(1, 6)
+                elif f == "max_unknown":
+                    st[f] = rng.choice([None, 0, 1, 3])
+                else:
+                    st[f] = {c_: rng.randint(0, 3) for c_ in rng.sample(gen.CLASSES, rng.randint(0, 3))}
+            c["set"] = st
+            ctx.cnt["reconfigured:" + "+".join(sorted(st))] += 1
+        # the first call must leave something to go stale: make it fail at least once
+        c0 = sc["calls"][0]
+        if c0["outcomes"][0][0] == "ok":
+            c0["outcomes"][0] = ["exc", rng.choice(gen.RETRYABLE[:4]), None]
+        for e in pick_entries(rng, ents, per):
+            run_one(sc, e)
+        ctx.inc("reconfigured_scenarios")
